@@ -69,9 +69,13 @@ class watchdog:
 # ------------------------------------------------------------------------------------------------
 
 def _cubic_inv(y):
-    # x^3 + x = y has one real root (strictly increasing); solved to 30 digits
+    """The real root of x^3 + x = y (strictly increasing, odd): Cardano, x = u - 1/(3u) with
+    u = cbrt(|y|/2 + sqrt(y^2/4 + 1/27))."""
     y = mp.mpf(y)
-    return mp.findroot(lambda x: x ** 3 + x - y, (-abs(y) - 2, abs(y) + 2), solver="illinois", tol=mp.mpf(10) ** -28)
+    if y == 0:
+        return mp.mpf(0)
+    u = mp.cbrt(abs(y) / 2 + mp.sqrt(y * y / 4 + mp.mpf(1) / 27))
+    return mp.sign(y) * (u - 1 / (3 * u))
 
 
 PROGRAMS = {
